@@ -34,9 +34,10 @@ def _scale(*arrs):
 
 
 def _integral(*arrs):
+    """exactly representable lattice data: multiples of 1/8 of moderate size (sums and products with small integers are exact)"""
     for a in arrs:
         a = np.asarray(a, dtype=float)
-        if a.size and (np.any(a != np.round(a)) or np.max(np.abs(a)) > 2 ** 20):
+        if a.size and (np.any(a * 8 != np.round(a * 8)) or np.max(np.abs(a)) > 2 ** 20):
             return False
     return True
 
@@ -197,6 +198,12 @@ def auer_rel(ci, bi, cj, bj, eps):
     nd: M(j,i) <= b_i + b_j (all k)   - exactly the three comparisons of auer.py with each design's OWN widths."""
     beta = bi + bj
     t = TAU * _scale(ci, cj, beta)
+    if _integral(ci, cj, bi, bj, eps):
+        # lattice replays: every quantity is exact, so the strict / non-strict comparisons of the rule are decided exactly
+        m_ij = max(0.0, float(np.min(cj - ci)))
+        M_ij = max(0.0, float(np.max((ci + eps) - cj)))
+        M_ji = max(0.0, float(np.max((cj + eps) - ci)))
+        return bool(np.all(m_ij > beta)), bool(np.all(M_ij < beta)), bool(np.all(M_ji <= beta))
     m_ij = max(0.0, float(np.min(cj - ci)))
     M_ij = max(0.0, float(np.max((ci + eps) - cj)))
     M_ji = max(0.0, float(np.max((cj + eps) - ci)))
